@@ -39,7 +39,8 @@ type Broker struct {
 	key       string
 	cancelIn  func()
 	cancelOut func()
-	bidirKey  string /* Bidirectional sentinel key. */
+	bidirKey  string     /* Bidirectional sentinel key. */
+	bidirMu   sync.Mutex /* Held by the one bidirectional connection. */
 	wg        sync.WaitGroup
 	noMore    bool
 
@@ -143,6 +144,24 @@ func (b *Broker) ConnectInOut(
 	w io.Writer,
 	r io.Reader,
 ) {
+	/* All bidirectional connections share a key, so only allow one at a
+	time lest one's input and another's output be taken for a shell. */
+	if !b.bidirMu.TryLock() {
+		b.mu.Lock()
+		noMore := b.noMore
+		b.mu.Unlock()
+		if !noMore {
+			sl.Error(LMAlreadyConnected)
+			b.Errorf(
+				addr,
+				"Rejected bidirectional connection while "+
+					"another is connected",
+			)
+		}
+		return
+	}
+	defer b.bidirMu.Unlock()
+
 	var wg sync.WaitGroup
 	wg.Add(2)
 	go func() {
